@@ -256,7 +256,11 @@ def cases(draw, pickers=("LoG", "DoG", "ZNCC")):
             lo, hi = margin, vol[a] - 1 - margin
             if cls in ("border", "corner") and borders[a] and (cls == "corner" or draw(st.booleans())):
                 b = draw(st.sampled_from(borders[a]))
-                v = b + draw(st.sampled_from([-1.5, -0.5, 0.0, 0.3, 1.2]))
+                if tshape is not None and tshape[a] % 2 == 0:
+                    # even template axis: picks sit on half-integers, b - 0.5 is exactly on the border between two chunks
+                    v = b + draw(st.sampled_from([-0.5, -0.5, -0.5, 0.5, -1.5, 0.3]))
+                else:
+                    v = b + draw(st.sampled_from([-1.5, -0.5, -0.5, 0.0, 0.0, 0.5, 0.3, 1.2]))
             else:
                 v = draw(st.floats(lo, max(lo, hi)))
             pos.append(round(float(min(max(v, lo), hi)), 2))
@@ -331,6 +335,20 @@ def many_rotation_cases(draw):
     return {"blobs": blobs, "ks": [draw(st.sampled_from([256, 257, 283, 299, 270])), draw(st.integers(0, 299))], "seed": draw(gen.seeds)}
 
 
+def border_exact(tier):
+    """even template, a particle whose (half-integer) centre lies exactly on a chunk border / on a corner shared by 8 chunks,
+    for odd and even lower chunk sizes"""
+    blobs = [{"u": [0.0, 0.0, 3.0], "s": 1.0, "a": 1.0}, {"u": [0.0, 2.942, 0.588], "s": 1.0, "a": 0.75}, {"u": [2.683, -0.805, -1.073], "s": 0.9, "a": 0.55}]
+    for lower in (21, 22, 23, 24):
+        for axes in ((0,), (1,), (2,), (0, 1, 2)):
+            chunks = [[lower, 46 - lower] if a in axes else [46] for a in range(3)]
+            p0 = [lower - 0.5 if a in axes else 22.5 for a in range(3)]
+            parts = [{"pos": p0, "k": 0, "cls": "corner" if len(axes) == 3 else "border", "grid": True}]
+            yield {"picker": "ZNCC", "scale": 1.0, "vol": [46, 46, 46], "chunks": chunks, "particles": parts, "sigma_px": 1.1, "tshape": [14, 14, 14],
+                   "blobs": blobs, "rots": [], "min_dist_px": 3.0, "depth": 7, "psigma": None, "tmpl_as": "array", "warm": False, "quarter_turns": False,
+                   "baseline": 0.0, "dtype": "float32", "noise": 0.01, "seed": 7 + lower}
+
+
 def nontrivial(d):
     if any(v < d["depth"] for v in d["vol"]) or any(p["cls"] == "pair" for p in d["particles"]):
         return True
@@ -369,6 +387,6 @@ def engines():
         Engine("many-rotations", judge_many_rotations, strategy=many_rotation_cases(), nontrivial=lambda d: any(k % 300 >= 256 for k in d["ks"][:2]),
                labels=lambda d: ["K:300"] + [f"k>=256:{k % 300 >= 256}" for k in d["ks"][:2]],
                cases={"quick": 4, "thorough": 48}, shards={"quick": 4, "thorough": 12}, shrink={"quick": False, "thorough": False}),
-        Engine("template-matcher", judge, strategy=cases(("ZNCC",)), nontrivial=nontrivial, labels=labels,
+        Engine("template-matcher", judge, strategy=cases(("ZNCC",)), enumerate=border_exact, nontrivial=nontrivial, labels=labels,
                cases={"quick": 80, "thorough": 800}, shards={"quick": 16, "thorough": 16}, shrink={"quick": False, "thorough": True}),
     ]
